@@ -41,6 +41,7 @@ class HooksModule:
     def __init__(self, src: Sources, types: TypesModule, rel: str = P_HOOKS):
         self.rel = rel
         self.types = types
+        self.src = src
         try:
             self.tree = ast.parse(src.text(rel))
         except SyntaxError as e:
@@ -374,6 +375,20 @@ class HooksModule:
                 out[r.key] = r
         return out
 
+    def class_hooks_effective(self):
+        """class_hooks plus what single dispatch adds through the MRO (axiom A1: singledispatch picks the closest
+        registered class of the MRO): `class E(str, enum.Enum)` has str before Enum in its MRO, so a hook registered
+        for str (int) is what structures every string-valued (integer-valued) enumeration that has no hook of its own."""
+        out = dict(self.class_hooks())
+        for base in ("str", "int"):
+            reg = out.get(("prim", base))
+            if reg is None:
+                continue
+            for name, c in self.types.classes.items():
+                if c.kind == "enum" and c.enum_base == base and ("enum", name) not in out:
+                    out[("enum", name)] = reg
+        return out
+
     def all_hook_functions(self):
         seen, out = set(), []
         for r in self.registrations:
@@ -464,6 +479,79 @@ class TypingHead:
         raise AnalysisError(f"typing.{n}[...] is not modelled")
 
 
+def _fold_get_converter(hm, it, g, make_conv, here_cls, regs, facs, preds):
+    """Hooks that converters.get_converter registers itself (before or after handing the converter to
+    register_hooks) end up on the very converter users get: get_converter is folded with register_hooks stubbed, and what
+    it registers is placed before / after the registrations of _hooks.py in registration order."""
+    from .microeval import Interp, Closure, ModuleRef, Record, Raised
+    src = getattr(hm, "src", None)
+    if src is None or not src.exists(P_CONVERTERS):
+        return
+    try:
+        tree = ast.parse(src.text(P_CONVERTERS))
+    except SyntaxError as e:
+        raise AnalysisError(f"{P_CONVERTERS}: syntax error: {e}")
+    gc = next((st for st in tree.body if isinstance(st, ast.FunctionDef) and st.name == "get_converter"), None)
+    if gc is None:
+        return
+    # is anything registered here at all?  (the pinned get_converter only delegates)
+    if not any(isinstance(n, ast.Attribute) and n.attr.startswith("register_") and n.attr != "register_hooks"
+               for n in ast.walk(tree)):
+        return
+    before, after, seen_rh = [], [], []
+    own_regs, own_facs, own_preds = [], [], []
+
+    class Here(here_cls):
+        def fn(self, hook=None):
+            node = getattr(hook, "node", None)
+            name = getattr(node, "name", None)
+            return "converters.get_converter", gc.args.args[0].arg if gc.args.args else "converter"
+    cg = dict(g)
+    types_mod = g.get(hm.types_alias)
+    conv_holder = {}
+
+    def rh(c):
+        seen_rh.append(len(own_regs) + len(own_preds) + len(own_facs))
+        return c
+    cit = Interp(name=P_CONVERTERS, extra_globals=cg)
+    for st in tree.body:
+        if isinstance(st, ast.ImportFrom):
+            for a in st.names:
+                nm = a.asname or a.name
+                if a.name == "types":
+                    cit.globals[nm] = types_mod
+                elif a.name == "_hooks":
+                    cit.globals[nm] = ModuleRef("_hooks", attrs={"register_hooks": ("host", rh)})
+                elif a.name == "register_hooks":
+                    cit.globals[nm] = ("host", rh)
+        elif isinstance(st, ast.FunctionDef):
+            cit.globals[st.name] = Closure(st, None, cit)
+    # registrations made through this converter object are collected separately
+    n_r, n_f, n_p = len(regs), len(facs), len(preds)
+    conv = make_conv(Here())
+    cit.globals["cattrs"] = ModuleRef("cattrs", attrs={"Converter": ("host", lambda *a, **k: conv),
+                                                        "gen": g["cattrs"].attrs.get("gen") if isinstance(g.get("cattrs"), ModuleRef) else None})
+    try:
+        cit.call(gc, [])
+    except Raised as e:
+        raise AnalysisError(f"{P_CONVERTERS}: get_converter raises {e.exc_name} when folded")
+    new_r, new_f, new_p = regs[n_r:], facs[n_f:], preds[n_p:]
+    del regs[n_r:], facs[n_f:], preds[n_p:]
+    cut = seen_rh[0] if seen_rh else 0
+    # everything registered before the register_hooks call precedes the package's own registrations
+    k = 0
+    pre_r, post_r = [], []
+    for r_ in new_r:
+        (pre_r if k < cut else post_r).append(r_)
+        k += 1
+    regs[:0] = pre_r
+    regs.extend(post_r)
+    facs.extend(new_f)
+    preds.extend(new_p)
+    for r_ in new_r:
+        r_.table = "<converters.py>"
+
+
 def fold_registrations(hm: "HooksModule"):
     """-> (registrations [Registration], factories [(direction, predicate value, Closure)]) or raises AnalysisError"""
     from . import microeval
@@ -500,10 +588,17 @@ def fold_registrations(hm: "HooksModule"):
     tattrs["ALL_TYPES_MAP"] = amap
     types_mod = ModuleRef("types", attrs=tattrs)
 
+    phase = {"import_time": False}
+
     def fields(cls):
         if not isinstance(cls, ClassRef) or cls.name not in t.classes or t.classes[cls.name].kind != "attrs":
             raise AnalysisError("attrs.fields() on something that is not a generated attrs class")
         c = t.classes[cls.name]
+        if phase["import_time"]:
+            # module level of _hooks.py runs at import, before register_hooks resolves the string annotations:
+            # attrs.fields(C).f.type is still the annotation as written (forward references unresolved)
+            return Record("Fields", {f.name: Record("Attribute", {"name": f.name, "type": TyVal(f.ty, list(f.ty_order))})
+                                     for f in c.fields})
         return Record("Fields", {f.name: Record("Attribute", {"name": f.name, "type": TyVal(f.resolved, t.resolve_order(f.ty_order))})
                                  for f in c.fields})
     attrs_mod = ModuleRef("attrs", attrs={"fields": ("host", fields),
@@ -572,6 +667,7 @@ def fold_registrations(hm: "HooksModule"):
     hm.fold_interp = it
     hm.fold_from_ty = from_ty
     # module level of _hooks.py: functions and simple assignments (type aliases, constants)
+    phase["import_time"] = True
     for st in hm.tree.body:
         if isinstance(st, ast.FunctionDef):
             it.globals[st.name] = Closure(st, None, it)
@@ -582,6 +678,7 @@ def fold_registrations(hm: "HooksModule"):
                     it.globals[tgt.id] = it.eval(st.value, {})
                 except (AnalysisError, Raised):
                     pass
+    phase["import_time"] = False
     regs, facs, preds = [], [], []
     hm.predicate_hooks = preds
     # lexical home of every nested function: the hook's `converter` is the parameter of the function around it
@@ -661,6 +758,7 @@ def fold_registrations(hm: "HooksModule"):
     except AnalysisError as e:
         whole, whole_err = False, str(e)
     if whole:
+        _fold_get_converter(hm, it, g, make_conv, _Here, regs, facs, preds)
         hm.resolver_first = "resolve" in events and events.index("resolve") == 0
         seen_fns = []
         for r_ in regs:
